@@ -644,7 +644,9 @@ func (d *db) doImport(op simrt.Op) {
 	d.last = fmt.Sprintf("import(%s/%s clear=%v %d bits)", ix.name, f.name, clear, len(all))
 	for _, b := range all {
 		if clear {
-			f.clearBit(b.r, b.c)
+			// an import with the clear option carries no timestamps (Field.Import refuses
+			// them) and addresses the standard view only; time views keep the bit
+			delete(f.bits[b.r], b.c)
 		} else {
 			f.setBit(b.r, b.c, b.ts)
 			if ix.track {
